@@ -25,6 +25,8 @@ pub(crate) enum K {
     ModeQuery,
     ModeList,
     ModeUser,
+    ModeMask,
+    WhoMask,
     Privmsg,
     Notice,
     Who,
@@ -51,7 +53,7 @@ pub(crate) enum K {
     Motd,
 }
 
-pub(crate) const NICKS: &[&str] = &["ann", "bob", "cat", "dan", "eve", "fay", "gus", "hal", "root", "ops"];
+pub(crate) const NICKS: &[&str] = &["ann", "bob", "cat", "dan", "eve", "fay", "gus", "hal", "root", "ops", "żółw", "ünï", "a", "bobby"];
 pub(crate) const CHANS: &[&str] = &["#a", "#b", "#c", "#d", "#pre", "#sec"];
 
 #[derive(Clone, Debug)]
@@ -207,12 +209,120 @@ impl<'a> Gen<'a> {
             4 => format!("*!*@{}", host_pat),
             5 => format!("{}!~{}", u.nick, u.user),
             6 => format!("{}@{}", u.nick, if u.host.contains(':') { "*".to_string() } else { u.host.clone() }),
-            7 => format!("{}?!*@*", &u.nick[..u.nick.len() - 1]),
-            8 => format!("?{}!*@*", &u.nick[1..]),
+            7 => format!("{}?!*@*", u.nick.chars().take(u.nick.chars().count().saturating_sub(1)).collect::<String>()),
+            8 => format!("?{}!*@*", u.nick.chars().skip(1).collect::<String>()),
             9 => format!("{}x!*@*", u.nick),
-            10 => format!("*{}*!*@*", &u.nick[1..]),
+            10 => format!("*{}*!*@*", u.nick.chars().skip(1).collect::<String>()),
             _ => "*!*@*".to_string(),
         }
+    }
+
+    /// adversarial mask built from a present identity (or name): nearly matching, over-long literal runs,
+    /// leading/trailing/consecutive wildcards, '?' against multi-byte characters, short forms
+    pub(crate) fn mask_adv(&mut self, base: Option<String>) -> String {
+        let users: Vec<MUser> = self.m.users.values().cloned().collect();
+        let ident = match base {
+            Some(b) => b,
+            None => {
+                if users.is_empty() {
+                    "nobody!~none@10.9.9.9".to_string()
+                } else {
+                    users[self.r.below(users.len())].src()
+                }
+            }
+        };
+        let mut m: Vec<char> = ident.chars().collect();
+        let nops = self.r.range(1, 3);
+        for _ in 0..nops {
+            if m.is_empty() {
+                break;
+            }
+            match self.r.below(14) {
+                0 | 1 => {
+                    // replace a (possibly empty) run by '*'
+                    let a = self.r.below(m.len() + 1);
+                    let b = a + self.r.below(m.len() - a + 1);
+                    m.splice(a..b, std::iter::once('*'));
+                }
+                2 => {
+                    let i = self.r.below(m.len());
+                    m[i] = '?';
+                }
+                3 => {
+                    let i = self.r.below(m.len() + 1);
+                    m.insert(i, ['x', 'a', '0', 'ż', '~'][self.r.below(5)]);
+                }
+                4 => m.insert(0, '*'),
+                5 => m.push('*'),
+                6 => {
+                    if let Some(i) = m.iter().position(|c| *c == '*') {
+                        m.insert(i, '*');
+                    } else {
+                        m.push('*');
+                        m.push('*');
+                    }
+                }
+                7 => {
+                    let i = self.r.below(m.len());
+                    m.remove(i);
+                }
+                8 => {
+                    // short forms
+                    let s: String = m.iter().collect();
+                    let nick = s.split('!').next().unwrap_or("").to_string();
+                    let host = s.rsplit('@').next().unwrap_or("").to_string();
+                    let user = s.split('!').nth(1).and_then(|x| x.split('@').next()).unwrap_or("").to_string();
+                    let f = match self.r.below(3) {
+                        0 => nick,
+                        1 => format!("{}@{}", nick, host),
+                        _ => format!("{}!{}", nick, user),
+                    };
+                    m = f.chars().collect();
+                }
+                9 => {
+                    // a literal run longer than the text, behind a star
+                    let n = m.len() + self.r.range(1, 8);
+                    let lit: String = std::iter::repeat('a').take(n).collect();
+                    let f = match self.r.below(3) {
+                        0 => format!("*{}", lit),
+                        1 => format!("*{}*", lit),
+                        _ => format!("*!*@*{}", lit),
+                    };
+                    m = f.chars().collect();
+                }
+                10 => {
+                    let n = ident.chars().count() + self.r.below(2);
+                    m = std::iter::repeat('?').take(n).collect();
+                }
+                11 => {
+                    // star in the middle followed by the real tail, text ending exactly at the star
+                    let i = self.r.below(m.len());
+                    let tail: Vec<char> = vec!['*', 'z', 'z'];
+                    m.truncate(i + 1);
+                    m.extend(tail);
+                }
+                12 => {
+                    let i = self.r.below(m.len());
+                    m.truncate(i + 1);
+                    m.push('*');
+                    m.push('?');
+                }
+                _ => {
+                    // everything after some point replaced by "*" + its last k chars
+                    let i = self.r.below(m.len());
+                    let k = self.r.below(4);
+                    let tail: Vec<char> = m[m.len().saturating_sub(k)..].to_vec();
+                    m.truncate(i);
+                    m.push('*');
+                    m.extend(tail);
+                }
+            }
+        }
+        let mut s: String = m.into_iter().filter(|c| *c != ' ' && *c != ',').collect();
+        if s.is_empty() || s.starts_with(':') || s.starts_with('+') || s.starts_with('-') {
+            s = format!("*{}", s);
+        }
+        s
     }
 
     pub(crate) fn emit(&mut self, acts: Vec<Action>) -> bool {
@@ -637,6 +747,52 @@ impl<'a> Gen<'a> {
                 let line = if args.is_empty() { format!("MODE {} {}", ch, ms) } else { format!("MODE {} {} {}", ch, ms, args.join(" ")) };
                 self.say(c, &line)
             }
+            K::ModeMask => {
+                let ch = match self.pick_chan_of(&me) {
+                    Some(ch) if self.r.chance(9, 10) => ch,
+                    _ => self.pick_chan(),
+                };
+                let l = ['b', 'b', 'e', 'I'][self.r.below(4)];
+                let set = self.r.chance(3, 4);
+                let existing: Vec<String> = self
+                    .m
+                    .chans
+                    .get(&ch)
+                    .map(|c| match l {
+                        'b' => c.ban.iter().cloned().collect(),
+                        'e' => c.exc.iter().cloned().collect(),
+                        _ => c.invex.iter().cloned().collect(),
+                    })
+                    .unwrap_or_default();
+                let mask = if !set && !existing.is_empty() { existing[self.r.below(existing.len())].clone() } else { self.mask_adv(None) };
+                let line = format!("MODE {} {}{} {}", ch, if set { '+' } else { '-' }, l, mask);
+                self.say(c, &line)
+            }
+            K::WhoMask => {
+                let users: Vec<MUser> = self.m.users.values().cloned().collect();
+                if users.is_empty() {
+                    return false;
+                }
+                let u = users[self.r.below(users.len())].clone();
+                if self.r.chance(1, 2) {
+                    let base = match self.r.below(3) {
+                        0 => u.nick.clone(),
+                        1 => u.src(),
+                        _ => u.real.replace(' ', "?"),
+                    };
+                    let mut m = self.mask_adv(Some(base));
+                    if !m.contains('*') && !m.contains('?') {
+                        m.push('*');
+                    }
+                    self.say(c, &format!("WHO {}", m))
+                } else {
+                    let mut m = self.mask_adv(Some(u.nick.clone()));
+                    if !valid_name(&m) {
+                        m = format!("{}*", u.nick);
+                    }
+                    self.say(c, &format!("WHOIS {}", m))
+                }
+            }
             K::ModeUser => {
                 let target = if self.r.chance(5, 6) { me.clone() } else { self.pick_user() };
                 if self.r.chance(1, 6) {
@@ -703,7 +859,7 @@ impl<'a> Gen<'a> {
                     1 => "*".to_string(),
                     2 => {
                         let u = self.pick_user();
-                        format!("{}*", &u[..1])
+                        format!("{}*", u.chars().take(1).collect::<String>())
                     }
                     _ => self.pick_user(),
                 };
